@@ -28,6 +28,7 @@ fn sorted(v: &J) -> J {
 pub fn digest(args: &Args) {
     let recs = read_ndjson(args.req("in"));
     let mut out = out_writer(args);
+    writeln!(out, "{}", json!({"id": "probe", "d_probe": crate::digest_parse::try_from_probe()})).unwrap();
     for r in &recs {
         if r.get("text").is_none() {
             continue;
